@@ -372,6 +372,9 @@ impl Model {
                 let a = Self::addr_of(ctx, *addr);
                 self.judge_read("read_hash", self.read_exp(&a), out)
             }
+            // a reader that is checked before its end, or dropped half-way: whatever it reports
+            // (it may well have seen everything), it changes nothing and it does not panic
+            Op::Stream { bufs, .. } if matches!(bufs.first(), Some(&x) if x == usize::MAX - 2 || x == usize::MAX - 3) => Ok(()),
             Op::Stream { by, .. } => match by {
                 By::Key(key) => {
                     let k = ctx.key(*key);
